@@ -146,6 +146,9 @@ pub struct WorkerOut {
     pub violation: Option<Replay>,
     pub harness_errors: Vec<String>,
     pub shrink_runs: u64,
+    /// C06: base programs whose single-fault space was enumerated
+    #[serde(default)]
+    pub programs: u64,
 }
 
 fn sample_of(case: &Case, out: &RunOutput, vd: &Verdict) -> serde_json::Value {
@@ -206,21 +209,20 @@ pub fn worker(family: Family, seed: u64, cases: u32, big: bool) -> WorkerOut {
         },
         seed_rng(seed),
     );
-    let result = runner.run(&strat, |case| {
-        let mut guard = st.borrow_mut();
-        let st = &mut *guard;
-        let out = &mut st.out;
+    // evaluates one concrete case; returns the violation to report (if any)
+    let process = |case: &Case, st: &mut WorkerState| -> Result<Option<(Violation, RunOutput)>, ()> {
         let shrinking = st.first_sig.is_some();
-        let (run, ordinal) = match run_on_thread(&case) {
+        let (run, ordinal) = match run_on_thread(case) {
             Ok(x) => x,
             Err(e) => {
-                if out.harness_errors.len() < 5 {
-                    out.harness_errors.push(format!("{e}; case={}", serde_json::to_string(&case).unwrap_or_default()));
+                if st.out.harness_errors.len() < 5 {
+                    st.out.harness_errors.push(format!("{e}; case={}", serde_json::to_string(case).unwrap_or_default()));
                 }
-                return Ok(());
+                return Err(());
             }
         };
-        let vd = oracle::check(&case, &run);
+        let vd = oracle::check(case, &run);
+        let out = &mut st.out;
         if shrinking {
             out.shrink_runs += 1;
         } else {
@@ -233,8 +235,8 @@ pub fn worker(family: Family, seed: u64, cases: u32, big: bool) -> WorkerOut {
             }
             if vd.nontrivial {
                 out.nontrivial += 1;
-                if st.hashes.insert(case_hash(&case)) && out.samples.len() < 3 {
-                    out.samples.push(sample_of(&case, &run, &vd));
+                if st.hashes.insert(case_hash(case)) && out.samples.len() < 3 {
+                    out.samples.push(sample_of(case, &run, &vd));
                 }
             }
         }
@@ -256,7 +258,7 @@ pub fn worker(family: Family, seed: u64, cases: u32, big: bool) -> WorkerOut {
             if st.first_sig.is_none() {
                 st.first_sig = Some(v.sig.clone());
             }
-            let view = View::new(&case, &run);
+            let view = View::new(case, &run);
             let rep = Replay {
                 property: prop.to_string(),
                 signature: v.sig.clone(),
@@ -271,19 +273,44 @@ pub fn worker(family: Family, seed: u64, cases: u32, big: bool) -> WorkerOut {
                 st.first_fail = Some(rep.clone());
             }
             st.last_fail = Some(rep);
-            return Err(TestCaseError::fail(v.sig.clone()));
+            return Ok(Some((v.clone(), run)));
         }
-        Ok(())
+        Ok(None)
+    };
+    let result = runner.run(&strat, |case| {
+        let mut guard = st.borrow_mut();
+        let st = &mut *guard;
+        if family == Family::C06 && case.faults.is_empty() {
+            // fault enumeration: the fault-free run gives the positions, then every single fault
+            let Ok((base, _)) = run_on_thread(&case) else { return Ok(()) };
+            let variants = crate::faults::enumerate(&case, &base, big);
+            if st.first_sig.is_none() {
+                st.out.programs += 1;
+            }
+            match process(&case, st) {
+                Ok(Some((v, _))) => return Err(TestCaseError::fail(v.sig)),
+                _ => {}
+            }
+            for vc in &variants {
+                match process(vc, st) {
+                    Ok(Some((v, _))) => return Err(TestCaseError::fail(v.sig)),
+                    _ => {}
+                }
+            }
+            return Ok(());
+        }
+        match process(&case, st) {
+            Ok(Some((v, _))) => Err(TestCaseError::fail(v.sig)),
+            _ => Ok(()),
+        }
     });
     let WorkerState { mut out, hashes, last_fail, first_fail, .. } = st.into_inner();
     match result {
         Ok(()) => {}
         Err(TestError::Fail(_, minimal)) => {
             // `last_fail` is the last failing execution = the minimal case
-            let rep = match last_fail {
-                Some(r) if r.case == minimal => Some(r),
-                other => other.or(first_fail.clone()),
-            };
+            let _ = minimal;
+            let rep = last_fail.or(first_fail.clone());
             out.violation = rep.or(first_fail);
         }
         Err(TestError::Abort(r)) => out.harness_errors.push(format!("proptest aborted: {r}")),
@@ -333,9 +360,9 @@ pub fn tier_for(family: Family, tier: &str) -> Tier {
     let thorough = tier == "thorough";
     let scale = |q: u32, t: u32| if thorough { t } else { q };
     let cases = match family {
-        Family::C06 => scale(300, 5_000),
-        Family::C08 | Family::C09 | Family::C14 | Family::C16 => scale(2_000, 50_000),
-        _ => scale(3_000, 100_000),
+        Family::C06 => scale(250, 6_000),
+        Family::C08 | Family::C09 | Family::C14 | Family::C16 => scale(6_000, 60_000),
+        _ => scale(8_000, 100_000),
     };
     Tier { name: if thorough { "thorough" } else { "quick" }, workers: 16, cases_per_worker: cases, big: thorough }
 }
@@ -350,7 +377,21 @@ pub fn rule_text(family: Family) -> &'static str {
     match family {
         Family::C01 => "proptest-generated client programs (1-4 clients, send/call/ping through all six handle kinds, conversions, timers as extra traffic, mailbox unbounded or bounded 0..3) x schedule bytes, executed on the deterministic simulation executor; non-trivial = the executed history contains at least one pair (m1,m2) with submission(m1) completed before submission(m2) began, both handled, that differ in client or in submission path (waiting vs. forcing); distinct = hash of the generated case (program + schedule)",
         Family::C02 => "C01 programs plus concurrent calls and one termination cause (client stop/halt/drop, started Err/panic, k-th handler panic, stopped panic, fail_on_timeout, cancellation of the actor task before its j-th poll) at a generated position; non-trivial = two calls on the same actor in flight at the same time, or an operation pending at the moment the actor task ended; distinct = hash of the generated case",
-        _ => "see DESIGN.md section 4",
+        Family::C03 => "client programs over plain and stream-attached actors x restart strategy {default, recreate, non-restartable} x mailbox kind, with stop through every entry point, ctx.stop/ctx.restart in handlers, restarts, last-handle drops, stream feed/end, started errors; oracle = per-actor acceptor automaton over callback events; non-trivial = a processed restart, or a termination with a payload (accepted send or created tick) still queued; distinct = hash of the generated case",
+        Family::C04 => "C01 programs in which 2-4 clients race stop requests (stop, halt, try_stop, try_halt, consume, ctx.stop in a handler) with submissions, plus awaiters (await of a clone, halt, join) before and after termination; non-trivial = a message accepted before the first stop request and a message submitted after an accepted stop returned in the same run, or an awaiter created after termination; distinct = hash of the generated case",
+        Family::C05 => "handle-manipulation programs (clone, downgrade, upgrade, all conversions, give to another client, drop) interleaved with submissions, with timers and broker subscriptions active; the harness keeps a model count of strong handles; non-trivial = the last strong handle was dropped by the clients (before teardown) with a message still queued or a timer/subscription active, or a weak upgrade was attempted after it; distinct = hash of the generated case",
+        Family::C06 => "base programs (target T with timers, 0-3 children, optionally a registered service; bystander B that calls T; 1-3 clients) for each of which the single-fault space is enumerated exhaustively from the positions of its fault-free run: started Err / started panic / k-th handler invocation panics (every k) / stopped panics / fail_on_timeout per handler duration / cancellation of T's task before its j-th poll (every j); evaluations counts fault runs; non-trivial = the fault took T down while an operation on T was pending or while T held children or timers; distinct = hash of (program, fault)",
+        Family::C07 => "client programs with restart requests through Addr::restart and Context::restart at any position, strategy {default, recreate, non-restartable}, timers registered in started and in handlers, optional started error in incarnation >= 1; non-trivial = a processed restart with an accepted message before the request, or with a timer registered before it; distinct = hash of the generated case",
+        Family::C08 => "1-4 client tasks issuing from_registry, setup, register, replace, unregister, try_from_registry, already_running, stop and self-stopping messages on 2 service types (optionally a pre-registered instance; optionally a default instance that looks up the other service in started); oracle = Wing-Gong linearizability search against a sequential registry model with three-valued liveness, preceded by specific sequential checks; non-trivial = two registry operations on the same type overlap in time, or a lookup follows a termination; distinct = hash of the generated case",
+        Family::C09 => "1-3 publishers (Broker::publish, Addr<Broker>::publish, Context::publish inside handlers) and 1-4 subscriber actors (some bounded) over 2 topics with subscribe in started, subscribe/unsubscribe by clients, broker pings as fences, stops and drops; per (publication, actor) the oracle derives MUST / MUST-NOT / MAY from completed-before relations; non-trivial = two subscribers with two deliveries each, at least one MUST delivery, plus an unsubscribe, a terminated subscriber or a second publisher; distinct = hash of the generated case",
+        Family::C10 => "0-4 timers of kinds interval / interval_with / delayed_send / delayed_exec (period/delay 1..50 virtual ticks) registered in started or in handlers, both mailbox kinds, mostly sleeping clients, termination by stop/halt/drop at any virtual time; non-trivial = some timer fired at least twice and the actor terminated with a timer still pending; distinct = hash of the generated case",
+        Family::C11 => "timeout t in 1..100 ticks or none, fail_on_timeout in {false,true}, both mailbox kinds, messages whose handler duration is t-1, t+1, << t, >> t (never = t), split into 1-3 sleeps, with further messages queued behind; non-trivial = a completed and an abandoned invocation in the same run with a message handled after them; distinct = hash of the generated case",
+        Family::C12 => "bounded(0..4) (and some unbounded) mailboxes, 1-4 clients sending through Addr, Sender, WeakSender mixed with forcing traffic (call, ping, interval, stop), handler durations 0..6 ticks; oracle = at every send-return stamp the number of returned-but-not-taken-out messages is <= n; non-trivial = at least one send was really blocked (pending polls > 0) and later returned Ok; distinct = hash of the generated case",
+        Family::C13 => "stream-attached actors (spawn_on_stream / builder, both mailbox kinds) on a harness-scripted stream (fed in bursts by client ops, ended or never-ending) with messages, stop, drops; both outcomes of the select! tie-break are accepted; non-trivial = an item and a message handled in the same run and a termination while the stream was still pending; distinct = hash of the generated case",
+        Family::C14 => "histories that vary who awaits the address and when relative to the termination (never / before / after), termination cause (stop, ctx.stop, handler panic, started error, cancellation), handle queried (Addr, clones, WeakAddr), followed by sequential registry reactions (from_registry, register, try_from_registry); non-trivial = a liveness query or a registry reaction after a termination that nobody awaited; distinct = hash of the generated case",
+        Family::C15 => "grants and conversion/drop programs leaving any non-empty combination of strong kinds {Addr, OwningAddr, Sender, Caller} alive (a second actor checks identity), then ctx.stop/ctx.restart messages, interval timers, upgrades of all weak kinds; non-trivial = a context operation, a weak upgrade or a due tick was checked while no Addr/OwningAddr existed; distinct = hash of the generated case",
+        Family::C16 => "actor trees up to depth 3 / 6 nodes built in started (add_child / register_child under two message types, some children also held outside), broadcasts through send_to_children, root termination by stop, drop, ctx.stop, started Err/panic, handler panic, stopped panic, cancellation; non-trivial = depth >= 2 with a broadcast and a non-graceful parent end; distinct = hash of the generated case",
+        Family::C17 => "owning spawns (spawn_owning, builder, default, on stream) with join, repeated joins, consume, consume_sync, detach, to_addr mixed with submissions from other clients and every termination cause incl. faults; non-trivial = a join racing with an in-flight submission of another client, or a second join; distinct = hash of the generated case",
     }
 }
 
@@ -438,6 +479,7 @@ pub fn run_parent(family: Family, tier_name: &str) -> i32 {
         merged.nontrivial += wo.nontrivial;
         merged.inconclusive += wo.inconclusive;
         merged.shrink_runs += wo.shrink_runs;
+        merged.programs += wo.programs;
         for (k, v) in wo.classes {
             *merged.classes.entry(k).or_default() += v;
         }
@@ -498,6 +540,7 @@ pub fn run_parent(family: Family, tier_name: &str) -> i32 {
             "excluded_known": merged.excluded_known,
             "regression_replays": replayed,
             "shrink_executions": merged.shrink_runs,
+            "programs_with_exhaustive_single_fault_enumeration": merged.programs,
             "workers": tier.workers,
             "cases_per_worker": tier.cases_per_worker,
             "exhaustive": false,
@@ -556,6 +599,24 @@ pub fn gen_stats(family: Family, n: u32, big: bool, seed: u64, show: usize) {
         use proptest::strategy::ValueTree;
         let case = case.current();
         let (run, _) = run_on_thread(&case).unwrap();
+        let mut variants = vec![];
+        if family == Family::C06 {
+            variants = crate::faults::enumerate(&case, &run, big);
+        }
+        for vc in &variants {
+            let (r2, _) = run_on_thread(vc).unwrap();
+            let vd2 = oracle::check(vc, &r2);
+            for c in &vd2.classes {
+                *classes.entry(c.to_string()).or_default() += 1;
+            }
+            if vd2.nontrivial {
+                nt += 1;
+            }
+            for v in &vd2.violations {
+                let e = sigs.entry(v.sig.clone()).or_insert((0, format!("{} CASE {}", v.detail, serde_json::to_string(vc).unwrap())));
+                e.0 += 1;
+            }
+        }
         let vd = oracle::check(&case, &run);
         for c in &vd.classes {
             *classes.entry(c.to_string()).or_default() += 1;
